@@ -727,8 +727,49 @@ class Flow:
                 and value.func.id in ("list", "set", "dict", "OrderedSet",
                                       "defaultdict", "deque"):
             fresh = True
+        elif isinstance(value, ast.BinOp) and isinstance(value.op, ast.Add) and any(
+                isinstance(x, (ast.List, ast.ListComp)) for x in (value.left, value.right)):
+            fresh = True
+        elif isinstance(value, ast.Call) and self._returns_fresh_container(value, env):
+            fresh = True       # `preds = self._helper(..)`: a list the helper built
         if fresh and isinstance(tgt, ast.Name):
             env["__fresh__"] = frozenset(env.get("__fresh__", frozenset())) | {tgt.id}
+
+    def _returns_fresh_container(self, call, env):
+        """the call goes to a private method of the same class (self._h(..)) every
+        return of which hands back a container it created itself: a display, a
+        comprehension, list(..)/sorted(..), a + of lists, or a local bound only to such"""
+        f = call.func
+        if not (isinstance(f, ast.Attribute) and isinstance(f.value, ast.Name)
+                and f.value.id in ("self", "cls") and f.attr.startswith("_")
+                and not f.attr.startswith("__")):
+            return False
+        cls = env.get("__selfcls__") or env.get("__owner__")
+        if not cls or cls not in self.m.classes:
+            return False
+        r = self.m.resolve_method(cls, f.attr)
+        if r is None:
+            return False
+        h = r[1]
+
+        def fresh_expr(e, depth=0):
+            if isinstance(e, (ast.List, ast.Set, ast.Dict, ast.ListComp, ast.SetComp,
+                              ast.DictComp)):
+                return True
+            if isinstance(e, ast.Call) and isinstance(e.func, ast.Name) \
+                    and e.func.id in ("list", "set", "dict", "sorted", "OrderedSet"):
+                return True
+            if isinstance(e, ast.BinOp) and isinstance(e.op, ast.Add):
+                return fresh_expr(e.left, depth) or fresh_expr(e.right, depth)
+            if isinstance(e, ast.Name) and depth < 2:
+                asg = [a.value for a in ast.walk(h)
+                       if isinstance(a, (ast.Assign, ast.AnnAssign)) and a.value is not None
+                       and any(isinstance(t, ast.Name) and t.id == e.id for t in (
+                           a.targets if isinstance(a, ast.Assign) else [a.target]))]
+                return bool(asg) and all(fresh_expr(v, depth + 1) for v in asg)
+            return False
+        rets = [x.value for x in ast.walk(h) if isinstance(x, ast.Return)]
+        return bool(rets) and all(v is not None and fresh_expr(v) for v in rets)
 
     def _is_self_attr(self, t):
         """``self.x`` / ``self.x[...]`` / ``self.x.y``: the mapper's own state."""
